@@ -48,7 +48,7 @@ Qed.
 Lemma handle_client_id : forall cfg o c b, c_id (a_client (handle_client ext_cut cfg o c b)) = c_id c.
 Proof.
   intros cfg o c b. unfold handle_client.
-  destruct (parse_for (c_state c) (k_ext (c_clip c)) (c_in c)) as [m i|e].
+  destruct (parse_for (c_state c) (k_ext (c_clip c)) (fix_extlimit cfg) (c_in c)) as [m i|e].
   - rewrite apply_msg_id. destruct c; reflexivity.
   - destruct c; reflexivity.
 Qed.
